@@ -115,6 +115,20 @@ Annotate(k, x, t) ==
   /\ nfact' = nfact + 1
   /\ UNCHANGED <<phase, arena, parents, children, allp, ic, bmode>>
 
+(* Builder::add_gene_from_bytes / add_omim_disease_from_bytes /            *)
+(* add_orpha_disease_from_bytes (the binary loader, crate-internal): one   *)
+(* NEW record arrives with ALL its direct terms at once.  Observationally  *)
+(* the same as AddRecord followed by one Annotate per term, but a single   *)
+(* call - and a single step of the step-level machine (HpoAlgo!LinkFinish  *)
+(* in mode "bytes"), which is why it is an action of its own here.         *)
+LoadRecord(k, x, S) ==
+  /\ phase = "connected"
+  /\ x \in RecIds[k] /\ ~HasRec(k, x) /\ S \subseteq Terms
+  /\ rec' = [rec EXCEPT ![k] = Put(@, x, [name |-> nfact + 1, hpos |-> S])]
+  /\ ann' = [ann EXCEPT ![k] = [a \in Ids |-> IF \E t \in S : a \in {t} \cup allp[t] THEN @[a] \cup {x} ELSE @[a]]]
+  /\ nfact' = nfact + 1
+  /\ UNCHANGED <<phase, arena, parents, children, allp, ic, bmode>>
+
 (* HISTORICAL (before the repair of finding F4, see HpoReject.tla):          *)
 (* annotate_* on a term that does not exist: the record is still created    *)
 (* and gains the (dangling) term id, then the call returns DoesNotExist.   *)
@@ -154,6 +168,7 @@ CoreNext ==
   \/ \E p, c \in Ids : AddParent(p, c)
   \/ ConnectAll
   \/ \E k \in Kinds : \E x \in RecIds[k] : AddRecord(k, x) \/ \E t \in Ids : Annotate(k, x, t)
+  \/ \E k \in Kinds : \E x \in RecIds[k] : \E S \in SUBSET Terms : LoadRecord(k, x, S)
   \/ CalcIC
   \/ BuildMinimal
   \/ BuildDefaults
